@@ -27,6 +27,8 @@ func runC08(e *Env) error {
 		"(b) random expression trees (depth ≤ 4, thorough 6) over literals, variables, attribute/index access, unary, binary, conditional, tests, filters, printed minimal / full / with redundant parentheses and random spacing; " +
 		"(a') every symbolic operator between 13 left and 10 right operand shapes written with no spaces vs with spaces; (c) one expression in ten syntactic positions; (d'') `matches` with and without the i flag asked in three orders against package regexp; (d) short-circuit and conditional evaluation observed through spy functions; (e) exact integer arithmetic against math/big; " +
 		"(f) integers of every decimal length up to 2^53 computed by + - * / % ^ and unary minus, written in every text-taking position (~, starts/ends with, in, matches, hash keys, subscripts, string filters, join, comparison with text, set, for, if, include, macro) against math/big's decimal spelling; " +
+		"(g) every position of eleven kinds of sequence addressed by a subscript computed in 32 ways (operators, Go int / int64 / float64 variables, set variables, filters, functions, conditionals, text, loop variables, random p + T - T), the access written in every syntactic position, against the element put there; " +
+		"(h) decimals held as text (every 0.00 .. 0.99, grids, signs, exponents, other spellings, 17 digits, random) from eleven sources in every comparison and arithmetic operator and position against strconv.ParseFloat and IEEE arithmetic, validated on number literals and float64 values first; " +
 		"non-trivial = at least two operators; distinct by source"
 	ctx := map[string]any{"a": 7, "b": 2, "c": 3, "s": "ab", "u": "b", "t": true, "f": false, "l": []interface{}{1, 2, "b"}, "z": 0}
 	atomSets := [][3]GExpr{
@@ -210,6 +212,14 @@ func runC08(e *Env) error {
 		return err
 	}
 	if err := c08WordStrings(e); err != nil {
+		return err
+	}
+	// (h) numbers held as text in every operator (c08_dectext.go)
+	if err := c08DecimalText(e); err != nil {
+		return err
+	}
+	// (g) index accesses whose subscript is computed (c08_subscript.go)
+	if err := c08ComputedSubscripts(e); err != nil {
 		return err
 	}
 	if r.Full() {
